@@ -210,7 +210,7 @@ def _init_worker(fn_init):
 # One case of a check normally takes milliseconds to a few seconds.  A case that is still running after ITEM_TIMEOUT seconds
 # means the library does not terminate on it (e.g. a loop that no longer advances): the case is abandoned, remembered in
 # TIMEOUTS, and bin/check reports it as a VIOLATION (the run neither returned the specified result nor failed).
-ITEM_TIMEOUT = int(os.environ.get('VERIF_ITEM_TIMEOUT', '600'))
+ITEM_TIMEOUT = int(os.environ.get('VERIF_ITEM_TIMEOUT') or (2400 if os.environ.get('VERIF_TIER') == 'thorough' else 600))
 TIMEOUTS = []
 
 
